@@ -36,9 +36,10 @@ from zv import core
 HARNESS_FLAGS = ["-w", "-Wl,--wrap=malloc,--wrap=calloc,--wrap=free"]
 
 # scenarios whose whole call sequence is replayed through the model (everything that is single threaded and goes
-# through operations AllocInstances.v transcribes); the others (multithreaded compression: allocation order depends
-# on the thread schedule; ZSTD_copyCCtx on a second context; dictionary training: plain malloc, not modelled) are
-# covered by the direct oracle, and for mt_* by the tie of the deterministic mtctx-creation prefix (see tie_mt_prefix)
+# through operations AllocInstances.v transcribes, incl. the unit-level calls of POOL_*, ZSTDMT_createCCtx_advanced,
+# ZSTDMT_resize, ZSTDMT_freeCCtx); the others (multithreaded compression: allocation order depends on the thread
+# schedule; ZSTD_copyCCtx on a second context; dictionary training: plain malloc, not modelled) are covered by the
+# direct oracle only
 TIED_PREFIXES = ("cctx_", "compress_", "load_dict_", "cdict_", "cstream", "unit_pool_", "unit_mtctx_", "unit_mtresize_", "dctx_",
                  "dstream_", "ddict_", "multi_ddict_")
 
@@ -369,6 +370,7 @@ class Batch:
     def __init__(self, ctx, exe, mexe, variant):
         self.ctx, self.exe, self.mexe, self.variant = ctx, exe, mexe, variant
         self.reported = set()
+        self.sampled = set()
         self.oracle_hits = []
         self.tie_breaks = []
         self.nb = 0
@@ -401,8 +403,9 @@ class Batch:
                         d = dict(d)
                         d["stderr_tail"] = err[-1500:]
                     self.report_oracle(d, h)
-                if len(ctx.cov["samples"]) < 8 and d.get("k") and not hits and (len(ctx.cov["samples"]) < 3 or site and site[0] not in str(ctx.cov["samples"])):
-                    ctx.sample(dict(scenario=sc, failing_allocation_indexes=d["k"], calls=d.get("ops", "")[:300], events=d.get("ev", "")[:400]))
+                if len(ctx.cov["samples"]) < 8 and d.get("k") and not hits and d.get("failed") and fam not in self.sampled and fam in ("mt", "unit", "dstream", "multi", "train", "load", "cdict", "compress"):
+                    self.sampled.add(fam)
+                    ctx.sample(dict(scenario=sc, failing_allocation_indexes=d["k"], calls=d.get("ops", "")[:300], events=d.get("ev", "")[:600]))
                 if tie and sc.startswith(TIED_PREFIXES) and "signal" not in d and "ev" in d:
                     calls, stray = parse_real(d["ev"])
                     faults, live = renumber(calls, stray)
@@ -488,14 +491,14 @@ def run(ctx):
     b = Batch(ctx, exe, mexe, variant)
     t0 = time.time()
     # 1. the whole catalogue, exhaustive over k, + sampled multiple faults
-    b.process(jobs_for(scens, rng, ctx.quick, 25 if ctx.quick else 120), "main", timeout_s=40 if ctx.quick else 90, wall=900)
+    b.process(jobs_for(scens, rng, ctx.quick, 25 if ctx.quick else 400), "main", timeout_s=40 if ctx.quick else 90, wall=900)
     ctx.notes["catalogue_wall_s"] = round(time.time() - t0, 1)
     core.log("C13: catalogue (exhaustive k + sampled multiple faults) + tie: %.1fs, %d cases" % (time.time() - t0, ctx.cov["evaluations"]))
     ctx.notes["scenarios"] = len(scens)
     ctx.notes["exhaustive_over_k_for_every_scenario"] = True
     # 2. multithreaded scenarios again (the allocation order there depends on the thread schedule)
     mt = [(n, h) for n, h in scens if n.startswith(("mt_", "train_opt"))]
-    for rep in range(3 if ctx.quick else 10):
+    for rep in range(3 if ctx.quick else 30):
         b.process([["sweep", n] for n, h in mt], "mt%d" % rep, timeout_s=40 if ctx.quick else 90, wall=900, tie=False)
     core.log("C13: + MT repeats: %.1fs" % (time.time() - t0))
     # 3. proof step
@@ -506,7 +509,7 @@ def run(ctx):
     if not ctx.quick and len(ctx.violations) == 0:
         exa = build_harness("asan")
         ba = Batch(ctx, exa, mexe, "asan")
-        ba.process(jobs_for(scens, rng, False, 25), "asan", timeout_s=240, wall=1500)
+        ba.process(jobs_for(scens, rng, False, 100), "asan", timeout_s=240, wall=1500)
         b.oracle_hits += ba.oracle_hits
         b.tie_breaks += ba.tie_breaks
         # coqchk re-validates the meta-theory (soundness of the analysis for every program / oracle, history lemmas).  The
